@@ -63,6 +63,7 @@ class Kernel:
         self.opened = 0
         self.closed = 0
         self.read_faults = {}     # fd -> {read ordinal: ('eio',) | ('cap', n)}
+        self.on_tty_read = None   # observer(fd, data) of every successful tty read
         self.sig = Signals(self)
 
     # ------------------------------------------------------------- fd table
@@ -169,6 +170,8 @@ class Kernel:
         data = bytes(buf[:n])
         del buf[:n]
         self.w.log.add("read", fd, n, data)
+        if o.kind == "tty" and self.on_tty_read is not None:
+            self.on_tty_read(fd, data)
         return data
 
     def write(self, fd, data):
@@ -346,6 +349,7 @@ class Signals:
         self.raising_ok = False     # True while inside a blocking seam call of main
         self.w.on_main_seam = self._on_main_seam
         self.w.main_wake = self._main_wake
+        self.w.on_main_line = self._on_main_line
         self.is_main = lambda: self.w.current is self.w.main
         self.app_is_main = True     # False: the app runs as a non-main thread (C12)
 
@@ -396,6 +400,10 @@ class Signals:
         if not self.pending or not self.app_is_main:
             return False
         return blocked_in in RAISING_SEAMS or self._returns_normally(self.pending[0])
+
+    def _on_main_line(self):
+        if self.pending and self.app_is_main and not self.in_handler:
+            self.deliver_pending(allow_raising=False)
 
     def _on_main_seam(self, name):
         if self.pending and self.app_is_main:
